@@ -171,6 +171,8 @@ Fixpoint join (m1 m2 : amap) : amap :=
   | m, [] => m
   | h1 :: t1, h2 :: t2 => union h1 h2 :: join t1 t2
   end.
+Fixpoint dedup (l : list nat) : list nat :=
+  match l with [] => [] | i :: t => let r := dedup t in if memb i r then r else i :: r end.
 Definition inclb (a b : list nat) := forallb (fun i => memb i b) a.
 Fixpoint leqb (m1 m2 : amap) : bool :=
   match m1, m2 with
@@ -189,6 +191,10 @@ Proof. unfold union. rewrite in_app_iff, filter_In. split.
   - intros [H|H]; auto. destruct (memb i a) eqn:E.
     + left. now apply memb_In.
     + right. split; auto. Qed.
+Lemma In_dedup i l : In i (dedup l) <-> In i l.
+Proof. induction l as [|j t IH]; simpl; [tauto|]. destruct (memb j (dedup t)) eqn:E.
+  - rewrite IH. split; auto. intros [<-|H]; auto. apply IH. now apply memb_In.
+  - simpl. rewrite IH. tauto. Qed.
 Lemma get_nil x : get [] x = [].
 Proof. unfold get. now destruct x. Qed.
 Lemma get_set_same x : forall v m, get (set x v m) x = v.
@@ -247,18 +253,18 @@ Fixpoint ana (p : prog) (a : amap) : option R :=
   | Skip => Some (a, [], [])
   | Fresh x => Some (set x [] a, [], [])
   | Copy x _ => Some (set x [] a, [], [])
-  | Alias x ys => Some (set x (flat_map (get a) ys) a, [], [])
+  | Alias x ys => Some (set x (dedup (flat_map (get a) ys)) a, [], [])
   | InPlace x => Some (a, get a x, [])
-  | Store x y => Some (set x (get a x ++ get a y) a, get a x, [])
+  | Store x y => Some (set x (dedup (get a x ++ get a y)) a, get a x, [])
   | ReadGlobal g => Some (a, [], [g])
   | Call r f args =>
       let argl := map (get a) args in
       match nth_error S_ f with
       | Some (Some sm) =>
           if length args <=? s_np sm
-          then Some (set r (pick argl (s_ret sm)) a, pick argl (s_mut sm), s_glob sm)
-          else Some (set r (concat argl) a, concat argl, gtop)
-      | _ => Some (set r (concat argl) a, concat argl, gtop)     (* unknown callee: may change and return any argument *)
+          then Some (set r (dedup (pick argl (s_ret sm))) a, dedup (pick argl (s_mut sm)), s_glob sm)
+          else Some (set r (dedup (concat argl)) a, dedup (concat argl), gtop)
+      | _ => Some (set r (dedup (concat argl)) a, dedup (concat argl), gtop)     (* unknown callee: may change and return any argument *)
       end
   | Seq p q =>
       match ana p a with
@@ -284,7 +290,7 @@ Definition idmap (n : nat) : amap := map (fun k => [k]) (seq 0 n).
 
 Definition summarize (S_ : list (option summ)) (gtop : list gid) (fd : fdef) : option summ :=
   match ana S_ gtop (f_body fd) (idmap (f_nparams fd)) with
-  | Some (a', M, G) => Some {| s_np := f_nparams fd; s_mut := M; s_ret := get a' (f_ret fd); s_glob := G |}
+  | Some (a', M, G) => Some {| s_np := f_nparams fd; s_mut := dedup M; s_ret := dedup (get a' (f_ret fd)); s_glob := dedup G |}
   | None => None
   end.
 
@@ -391,7 +397,7 @@ Lemma call_havoc lab r f args fd a s s1 :
   Inv lab s a -> wf s -> bounded lab s ->
   let argl := map (get a) args in
   let s' := {| env := upd (env s) r (env s1 (f_ret fd)); ver := ver s1; nxt := nxt s1; glob := glob s1 |} in
-  Inv lab s' (set r (concat argl) a) /\ kept lab (concat argl) s s'.
+  Inv lab s' (set r (dedup (concat argl)) a) /\ kept lab (dedup (concat argl)) s s'.
 Proof.
   intros Hf Hex I W B argl s'.
   assert (W0 : wf {| env := entry_env s args; ver := ver s; nxt := nxt s; glob := glob s |}).
@@ -406,12 +412,12 @@ Proof.
     + rewrite upd_same in E. rewrite get_set_same.
       assert (Lt : c < nxt s) by (destruct Lc as [j Hj]; eauto).
       destruct (R1 _ _ E Lt) as [k Hk]. destruct (ARG c Lc k Hk) as [i [Hi Hin]].
-      exists i. split; auto. eapply In_nth_concat; eauto.
+      exists i. split; auto. apply In_dedup. eapply In_nth_concat; eauto.
     + rewrite upd_other in E by exact N. rewrite get_set_other by congruence. eauto.
   - intros c Lc H. unfold s'. simpl.
     assert (Lt : c < nxt s) by (destruct Lc as [j Hj]; eauto).
     apply F1; auto. intros k Hk. destruct (ARG c Lc k Hk) as [i [Hi Hin]].
-    apply (H i Hi). eapply In_nth_concat; eauto.
+    apply (H i Hi). apply In_dedup. eapply In_nth_concat; eauto.
 Qed.
 
 Theorem ana_sound lab : forall p a a' M G s s',
@@ -429,7 +435,7 @@ Proof.
   - (* Alias *) inversion Hex; subst. simpl in Ha. inversion Ha; subst. split; [|split].
     + intros z c E Lc. simpl in E. destruct (Nat.eq_dec z x) as [->|N].
       * rewrite upd_same in E. rewrite get_set_same. destruct (I _ _ E Lc) as [i [Hi Hin]].
-        exists i. split; auto. apply in_flat_map. eauto.
+        exists i. split; auto. apply In_dedup, in_flat_map. eauto.
       * rewrite upd_other in E by exact N. rewrite get_set_other by congruence. eauto.
     + intros c _ _. reflexivity.
     + intros g _ _. reflexivity.
@@ -448,7 +454,7 @@ Proof.
   - (* Store *) inversion Hex; subst. simpl in Ha. inversion Ha; subst. split; [|split].
     + intros w c E Lc. simpl in E. destruct (Nat.eq_dec w x) as [->|N].
       * rewrite upd_same in E. rewrite get_set_same. destruct (I _ _ E Lc) as [i [Hi Hin]].
-        exists i. split; auto. apply in_or_app.
+        exists i. split; auto. apply In_dedup, in_or_app.
         match goal with Hz : In _ [_; _] |- _ => destruct Hz as [<-|[<-|[]]]; auto end.
       * rewrite upd_other in E by exact N. rewrite get_set_other by congruence. eauto.
     + intros c Lc H. simpl. unfold bump. destruct (env s x) as [c0|] eqn:E; auto.
@@ -462,7 +468,7 @@ Proof.
   - (* Call *) inversion Hex; subst.
     match goal with Hx : nth_error T f = Some _ |- _ => rename Hx into Hf end.
     match goal with Hx : exec T (f_body _) _ _ |- _ => rename Hx into Hbody end.
-    assert (HAVOC : Some (set r (concat (map (get a) args)) a, concat (map (get a) args), gtop) = Some (a', M, G) ->
+    assert (HAVOC : Some (set r (dedup (concat (map (get a) args))) a, dedup (concat (map (get a) args)), gtop) = Some (a', M, G) ->
                     Inv lab {| env := upd (env s) r (env s1 (f_ret fd)); ver := ver s1; nxt := nxt s1; glob := glob s1 |} a' /\
                     kept lab M s {| env := upd (env s) r (env s1 (f_ret fd)); ver := ver s1; nxt := nxt s1; glob := glob s1 |} /\
                     gkept G s {| env := upd (env s) r (env s1 (f_ret fd)); ver := ver s1; nxt := nxt s1; glob := glob s1 |}).
@@ -490,14 +496,14 @@ Proof.
         assert (Lt : c < nxt s) by (destruct Lc as [j Hj]; eauto).
         destruct (R1 _ _ E Lt) as [k0 Hk0].
         destruct (Kr c E (ex_intro _ k0 Hk0)) as [k [Hk Hin]].
-        destruct (ARG c Lc k Hk) as [i [Hi Hi2]]. exists i. split; auto. eapply In_pick; eauto.
+        destruct (ARG c Lc k Hk) as [i [Hi Hi2]]. exists i. split; auto. apply In_dedup. eapply In_pick; eauto.
       * rewrite upd_other in E by exact N. rewrite get_set_other by congruence. eauto.
     + intros c Lc H. simpl.
       assert (Lt : c < nxt s) by (destruct Lc as [j Hj]; eauto).
       destruct (entry_reach_dec s args c) as [[k0 Hk0]|NR].
       * change (ver s c) with (ver s0 c). apply Km; [exists k0; exact Hk0|].
         intros k Hk Hin. simpl in Hk. destruct (ARG c Lc k Hk) as [i [Hi Hi2]].
-        apply (H i Hi). eapply In_pick; eauto.
+        apply (H i Hi). apply In_dedup. eapply In_pick; eauto.
       * apply F1; auto.
     + intros g Hg N. simpl. change (glob s g) with (glob s0 g). apply Kg; auto.
   - (* Seq *) simpl in Ha. destruct (ana S_ gtop p a) as [[[a1 m1] g1]|] eqn:E1; [|discriminate].
@@ -559,8 +565,10 @@ Proof.
     rewrite idmap_get by exact L. now left. }
   assert (B0 : bounded (env s) s) by (intros i c Hi; eauto).
   destruct (ana_sound T gtop S_ HS (env s) _ _ _ _ _ _ _ E Hex I0 W B0) as (I1 & K1 & G1).
-  split; [exact K1|split; [|exact G1]].
-  intros c Ec Lc. exact (I1 _ _ Ec Lc).
+  split; [|split].
+  - intros c Lc H. apply K1; auto. intros i Hi Hin. apply (H i Hi). now apply In_dedup.
+  - intros c Ec Lc. destruct (I1 _ _ Ec Lc) as [k [Hk Hin]]. exists k. split; auto. now apply In_dedup.
+  - intros g Hg N'. apply G1; auto. intros Hin. apply N'. now apply In_dedup.
 Qed.
 
 Lemma summs_length n : length (summs_upto T gtop n) = n.
